@@ -29,6 +29,7 @@ Verdict(e) ==
      ELSE IF o.exit # 0 /\ (o.created \/ o.fs_changed) THEN "cli-failed-run-touched-the-file-system"
      ELSE IF o.overwrote THEN "cli-existing-file-overwritten"
      ELSE IF ~NeverOverwrite(a, o) THEN "cli-wrote-at-an-existing-path"
+     ELSE IF a.help /\ o.exit = 0 THEN (IF o.stdout = "help" /\ ~o.created /\ ~o.fs_changed THEN "ok" ELSE "cli-help-run-emitted-or-wrote-something")
      ELSE IF o.exit = 0 /\ o.stdout = "help" THEN "cli-help-with-zero-status"
      ELSE IF o.exit = 0 /\ ~o.equals_api THEN "cli-output-differs-from-api-result"
      ELSE IF o.exit = 0 /\ a.file = "none" /\ (o.created \/ o.stdout \notin {"wallet", "wallet-filtered"}) THEN "cli-wrong-output-channel"
